@@ -106,6 +106,7 @@ class World:
         self.freq_kwargs = {"freq": S.FREQ.copy(), "fp": 0.1, "hs": 2.0, "gamma": 2.0}
         self.dir_kwargs = {"dir": S.GRIDS[1].copy(), "dm": 90.0, "dspr": 25.0}
         self.stats_dict = {"hs": {}, "tp": {"smooth": False}}
+        self.time_encoding = {"dtype": "float64"}
         self.tgt_freq = np.array([0.06, 0.12, 0.22, 0.33])
         self.tgt_dir = [0.0, 60.0, 120.0, 180.0, 240.0, 300.0]
         self.tmp = tempfile.mkdtemp(prefix="c17-", dir=os.path.join(BUILD, "traces"))
@@ -138,11 +139,11 @@ class World:
     def objects(self):
         return [self.ds, self.buffer, self.qlons_np, self.qlats_np, self.qlons_list, self.qlats_list, self.qlons_da, self.qlats_da,
                 self.dset_lons, self.dset_lats, self.bboxes, self.freq_kwargs, self.dir_kwargs, self.stats_dict, self.tgt_freq, self.tgt_dir,
-                self.native["ww3"], self.native["ncswan"], self.native["wwm"], self.native["era5"], self.ds1d]
+                self.native["ww3"], self.native["ncswan"], self.native["wwm"], self.native["era5"], self.ds1d, self.time_encoding]
 
     NAMES = ["dataset", "caller buffer", "query lons (ndarray)", "query lats (ndarray)", "query lons (list)", "query lats (list)",
              "query lons (DataArray)", "query lats (DataArray)", "dset_lons", "dset_lats", "bboxes list", "freq_kwargs", "dir_kwargs",
-             "stats dict", "target freq", "target dir list", "native WW3 dataset", "native SWAN-nc dataset", "native WWM dataset", "native ERA5 dataset", "1-D spectra dataset"]
+             "stats dict", "target freq", "target dir list", "native WW3 dataset", "native SWAN-nc dataset", "native WWM dataset", "native ERA5 dataset", "1-D spectra dataset", "time_encoding dict"]
 
 
 def ops_table():
@@ -206,6 +207,8 @@ def ops_table():
         "to_octopus_full": lambda W: W.ds.spec.to_octopus(os.path.join(W.tmp, "b.oct"), site_id="s"),
         "to_funwave": lambda W: W.ds.isel(time=0, site=0).spec.to_funwave(os.path.join(W.tmp, "a.txt")),
         "to_netcdf3": lambda W: W.ds.spec.to_netcdf(os.path.join(W.tmp, "a.nc"), ncformat="NETCDF3_64BIT", compress=False, packed=False),
+        "to_netcdf3_kw": lambda W: W.ds.spec.to_netcdf(os.path.join(W.tmp, "k.nc"), ncformat="NETCDF3_64BIT", compress=False, packed=False,
+                                                        time_encoding=W.time_encoding, specname="efth"),
         "to_ww3": lambda W: W.ds.spec.to_ww3(os.path.join(W.tmp, "w.nc"), ncformat="NETCDF3_64BIT", compress=False),
     }
     return t
@@ -222,7 +225,7 @@ def run(ctx):
     names = sorted(table)
     maxlen = 2
     q = "{" + ",".join('"%s"' % n for n in names) + "}"
-    cfg = ws.write_cfg("frame_%d.cfg" % maxlen, "SPECIFICATION Spec\nCONSTANTS OPS = %s\n NOBJ = 21\n MAXLEN = %d\nPROPERTY ArgsImmutable\nINVARIANT EmitInv\n" % (q, maxlen))
+    cfg = ws.write_cfg("frame_%d.cfg" % maxlen, "SPECIFICATION Spec\nCONSTANTS OPS = %s\n NOBJ = 22\n MAXLEN = %d\nPROPERTY ArgsImmutable\nINVARIANT EmitInv\n" % (q, maxlen))
     r = ctx.tlc("Frame", cfg, workers=4, label="programs of %d calls over %d operations" % (maxlen, len(names)))
     for inv in r.violated:
         if inv != "EmitInv":
